@@ -3,8 +3,8 @@ CONSTANTS
   MaxPub = 4
   HistSize = 3
   MaxFaults = 1
-  Kinds = {"rec"}
+  Kinds = {"rec", "cache"}
   UrgentAsync = TRUE
   RecLimit = 2
-INVARIANTS TypeOK C01 C02 C10 C16 PosConsistent
+INVARIANTS TypeOK C01 C02 C03 C10 C16 PosConsistent
 CHECK_DEADLOCK FALSE
